@@ -31,10 +31,75 @@ def main():
     UF = {"add": np.add, "subtract": np.subtract, "multiply": np.multiply, "maximum": np.maximum, "minimum": np.minimum,
           "negative": np.negative, "absolute": np.absolute, "square": np.square, "sign": np.sign}
 
+    def typed(values, dtype):
+        """integer-valued JSON data as an array of `dtype` (complex: v * (1 + 1j), so that the imaginary parts take part)"""
+        a = np.asarray(values, dtype=np.int64)
+        if dtype in (None, "int64"):
+            return a
+        if dtype.startswith("complex"):
+            return (a * (1 + 1j)).astype(dtype)
+        return a.astype(dtype)
+
     def coo(j):
         nd = len(j["shape"])
         c = np.asarray(j["coords"], dtype=np.int64).reshape(len(j["data"]), nd).T
-        return sparse.COO(c, np.asarray(j["data"], dtype=np.int64), shape=tuple(j["shape"]), fill_value=j["fill"])
+        dt = j.get("dtype")
+        data = typed(j["data"], dt)
+        return sparse.COO(c, data, shape=tuple(j["shape"]), fill_value=data.dtype.type(j["fill"]))
+
+    def num(v):
+        """a NumPy scalar as JSON: bool/int -> int, float -> float, complex -> [re, im]"""
+        if isinstance(v, bool | np.bool_ | int | np.integer):
+            return int(v)
+        if isinstance(v, complex | np.complexfloating):
+            return [float(v.real), float(v.imag)]
+        return float(v)
+
+    def typed_json(r):
+        """any result with its values as they are (no cast to int): COO / GCXS / DOK through COO, ndarray, scalar"""
+        if isinstance(r, sparse.GCXS | sparse.DOK):
+            kind = type(r).__name__
+            r = r.tocoo() if isinstance(r, sparse.GCXS) else r.asformat("coo")
+        elif isinstance(r, sparse.COO):
+            kind = "COO"
+        elif isinstance(r, np.ndarray):
+            return {"type": "ndarray", "shape": list(r.shape), "dtype": str(r.dtype), "data": [num(v) for v in r.ravel()[:10000]]}
+        else:
+            return {"type": "scalar", "dtype": str(getattr(r, "dtype", type(r).__name__)), "data": num(r)}
+        return {"type": kind, "shape": [int(d) for d in r.shape], "dtype": str(r.dtype), "fill": num(r.fill_value),
+                "coords": [[int(v) for v in col] for col in r.coords.T.tolist()] if r.ndim else [[] for _ in range(r.nnz)],
+                "data": [num(v) for v in r.data]}
+
+    def dense_gen(g):
+        """{"shape", "m", "sign", "dtype"}: d.flat[k] = sign * ((7 k + 3) mod m + 1) — never zero, computable position by position"""
+        size = int(np.prod(g["shape"], dtype=np.int64)) if g["shape"] else 1
+        d = (g.get("sign", 1) * ((np.arange(size, dtype=np.int64) * 7 + 3) % g["m"] + 1)).astype(g.get("dtype", "int64"))
+        return d.reshape(g["shape"])
+
+    def measured(thunk):
+        """-> {"out": ..., "secs", "peak"} of one call (typed representation), errors caught per call"""
+        tracemalloc.start()
+        tracemalloc.reset_peak()
+        t0 = time.perf_counter()
+        try:
+            r = thunk()
+            secs = time.perf_counter() - t0
+            peak = tracemalloc.get_traced_memory()[1]
+            return {"out": {"ok": typed_json(r)}, "secs": round(secs, 4), "peak": int(peak)}
+        except BaseException as e:  # noqa: BLE001
+            if isinstance(e, KeyboardInterrupt | SystemExit):
+                raise
+            return {"out": {"err": "memory" if isinstance(e, MemoryError) else impl.err_class(e), "type": type(e).__name__, "msg": str(e)[:300]},
+                    "secs": round(time.perf_counter() - t0, 4), "peak": 0}
+        finally:
+            tracemalloc.stop()
+
+    def reduction(x, name, axes, dt, keepdims):
+        kw = {"axis": tuple(axes), "keepdims": bool(keepdims)}
+        if dt is not None:
+            kw["dtype"] = np.dtype(dt)
+        f = getattr(sparse, name)
+        return lambda: f(x, **kw)
 
     def gcxs_json(g):
         return {
@@ -166,6 +231,31 @@ def main():
             if c.get("where") == "sparse":
                 return lambda: getattr(sparse, c["name"])(x, *args, **kw)
             return lambda: getattr(x, c["name"])(*args, **kw)
+        if op == "reduce_batch":
+            # {"x": typed coo, "items": [[name, axes, dtype|null, keepdims], ...]}: every item measured on its own; each (name, dtype argument) is
+            # first run on a small array of the same dtype and rank, so that compilation is not the item's time or memory
+            x = as_fmt(coo(c["x"]), fmt)
+            small = coo(dict(c["x"], shape=[3] * len(c["x"]["shape"]), coords=[[0] * len(c["x"]["shape"]), [1] * len(c["x"]["shape"])], data=c["x"]["data"][:2]))
+            seen = set()
+            for name, axes, dt, kd in c["items"]:
+                if (name, dt, len(axes)) not in seen:
+                    seen.add((name, dt, len(axes)))
+                    try:
+                        reduction(small, name, axes, dt, kd)()
+                    except Exception:  # noqa: BLE001
+                        pass
+            return {"items": [measured(reduction(x, name, axes, dt, kd)) for name, axes, dt, kd in c["items"]]}
+        if op == "mixed":
+            # one sparse operand (any format) and one small dense ndarray: {"x", "format", "dense": generator spec, "func", "order": "xd"|"dx"}
+            x = as_fmt(coo(c["x"]), fmt)
+            d = dense_gen(c["dense"])
+            f = getattr(np, c["func"])
+            args = (x, d) if c["order"] == "xd" else (d, x)
+            if c.get("operator"):
+                import operator as _op
+
+                f = getattr(_op, c["operator"])
+            return lambda: f(*args)
         if op == "fn":
             # a function of the namespace on one array or a list of arrays: {"name", "xs": [coo…], "as_list": bool, "args": […], "kwargs": {…}};
             # {"array": […]} in args is an integer ndarray; a 0-d sparse result is reported as its scalar
@@ -224,7 +314,7 @@ def main():
                         peak = tracemalloc.get_traced_memory()[1]
                     finally:
                         tracemalloc.stop()
-                ans.update(out={"ok": rep(r, bool(c.get("want_coo")))}, peak=int(peak), secs=round(secs, 4), result_type=type(r).__name__,
+                ans.update(out={"ok": typed_json(r) if c.get("typed") else rep(r, bool(c.get("want_coo")))}, peak=int(peak), secs=round(secs, 4), result_type=type(r).__name__,
                            nnz_out=int(getattr(r, "nnz", 1)), maxrss_kb=resource.getrusage(resource.RUSAGE_SELF).ru_maxrss)
         except BaseException as e:  # noqa: BLE001
             if isinstance(e, KeyboardInterrupt | SystemExit):
